@@ -85,6 +85,11 @@ func runC15(r *Run) {
 	r.D("unsolicited", unsolicited)
 	r.Nontrivial = true
 
+	// late mode: the run ends with a close handshake instead of CloseNow, and the
+	// peer sends pings between receiving the library's Close frame and echoing it:
+	// the connection is still being read, so they have to be answered
+	lateMode := t.Pct(30) && !stallFirst && policy != 6
+	lateSent, lateN := false, 1+t.Draw(3)
 	stalled := false
 	if stallFirst {
 		unsolicited = true
@@ -318,6 +323,17 @@ func runC15(r *Run) {
 			if f == nil {
 				return
 			}
+			if f.Opcode == wsref.OpClose && lateMode && !lateSent && len(f.Payload) >= 2 && int(f.Payload[0])<<8|int(f.Payload[1]) == 1000 {
+				for i := 0; i < lateN; i++ {
+					p := []byte(fmt.Sprintf("late-%d", i))
+					sentPings = append(sentPings, p)
+					peer.Send(wsref.Frame{Fin: true, Opcode: wsref.OpPing, Payload: p})
+				}
+				peer.Send(wsref.Frame{Fin: true, Opcode: wsref.OpClose, Payload: f.Payload})
+				lateSent = true
+				r.S.Count("probe.pings-after-own-close-frame")
+				continue
+			}
 			if f.Opcode != wsref.OpPing {
 				continue
 			}
@@ -346,6 +362,10 @@ func runC15(r *Run) {
 		}, nil)
 		r.S.Sleep(3 * time.Second) // let inbound pings be answered
 		r.S.Park("a.finisher.close")
+		if lateMode {
+			c.Close(websocket.StatusNormalClosure, "bye")
+			return
+		}
 		c.CloseNow()
 	})
 	r.S.Loop()
@@ -462,6 +482,9 @@ func runC15(r *Run) {
 	// write that cannot complete within 5 s legitimately fails the connection)
 	if policy != 6 && (len(gotPongs) < len(sentPings) && readErr == nil && !useCloseRead || useCloseRead && len(gotPongs) < len(sentPings) && inMsgs == 0) {
 		r.Violate("pong-missing", sig, "library answered %d of %d pings although it kept reading", len(gotPongs), len(sentPings))
+	}
+	if lateSent && len(gotPongs) < len(sentPings) {
+		r.Violate("pong-missing", sig+",after-own-close-frame", "library answered %d of %d pings; the last %d were sent after the peer had received the library's Close frame and before the peer echoed it", len(gotPongs), len(sentPings), lateN)
 	}
 	if len(sentPings) > 0 {
 		r.S.Count("probe.inbound-pings")
